@@ -578,7 +578,7 @@ func DrawPool(t *rapid.T, legacy bool) Pool {
 		// nested far deeper than any scratch state is kept for (a scanner's stack above 1024
 		// entries is not pooled): what a call does with its oversized scratch state afterwards
 		// shows in the calls that follow it or run beside it
-		n := rapid.SampledFrom([]int{1100, 1100, 2100}).Draw(t, "deepn")
+		n := rapid.SampledFrom([]int{1100, 1100, 1300}).Draw(t, "deepn")
 		add(&p.Docs, []byte(`{"d":`+strings.Repeat("[", n)+"1"+strings.Repeat("]", n)+`,"e":1}`))
 	}
 	np := gen.Uniform(t, 1, 3, "npatches")
@@ -680,6 +680,20 @@ func drawCall(t *rapid.T, p Pool, opts []lib.Options, gc bool) Call {
 		c.A, c.B = pick(p.Docs, "da"), pick(p.Docs, "db")
 		if gen.OneIn(t, 4, "mix") {
 			c.B = pick(p.Merges, "mb")
+		}
+	}
+	if len(p.Bufs[c.A]) > 2000 || len(p.Bufs[c.B]) > 2000 {
+		// Equal is quadratic in the nesting depth (0.4 s on a 2 100-level document, 4 s under the race
+		// detector) and the indenting entry points write depth^2 bytes (4 MB, 0.7 s under the race
+		// detector): histories and workloads want many cheap calls, and the other functions bring
+		// the deep document through the same scratch states
+		switch c.Fn {
+		case FEqual:
+			c.Fn = FMerge
+		case FApplyIndent:
+			c.Fn, c.Indent = FApply, ""
+		case FApplyIndOpt:
+			c.Fn, c.Indent = FApplyOpts, ""
 		}
 	}
 	return c
